@@ -559,6 +559,22 @@ static int own_mnew(int argc, char **argv)
    return 0;
    }
 
+/* own.madd <m> <d1> ...: extend a finalized template and finalize it again */
+static int own_madd(int argc, char **argv)
+   {
+   BufrDescValue *dv; int i, n = argc - 2, m, rc;
+   if (argc < 3 || (m = slot(argv[1])) < 0 || !M[m]) return bad();
+   dv = (BufrDescValue *)calloc(n + 1, sizeof(BufrDescValue));
+   for (i = 0; i < n; i++) { dv[i].descriptor = atoi(argv[i + 2]); dv[i].values = NULL; dv[i].nbval = 0; }
+   bufr_template_add_DescValue(M[m], dv, n);
+   free(dv);
+   rc = bufr_finalize_template(M[m]);
+   fputs(rc < 0 ? "fail " : "ok ", bvp_out);
+   print_tmpl_shape(M[m]);
+   fprintf(bvp_out, " c%d", M[m]->tables->tableB_cache != NULL);
+   return 0;
+   }
+
 /* own.mload <m> <t|@set|-> <path>: bufr_load_template */
 static int own_mload(int argc, char **argv)
    {
@@ -777,7 +793,8 @@ static int own_dhdr(int argc, char **argv)
    return 0;
    }
 
-/* own.enc <g> <d> <compress>: prints the Section 4 length the library wrote and the size it first allocated */
+/* own.enc <g> <d> <compress>: prints the Section 4 length the library wrote, the size it first allocated,
+ * the allocation in octets (s4.max_len) and the data capacity (s4.max_data_len) */
 static int own_enc(int argc, char **argv)
    {
    int g, d, i, j; uint64_t nbits = 0, blen = 0;
@@ -797,8 +814,8 @@ static int own_enc(int argc, char **argv)
       blen += nbits / 8; nbits %= 8;
       }
    blen += nbits ? 1 : 0;
-   fprintf(bvp_out, "ok %d %u %llu %u", (G[g]->s3.flag & BUFR_FLAG_COMPRESSED) ? 1 : 0,
-           G[g]->s4.filled + (G[g]->s4.bitno ? 1 : 0), (unsigned long long)blen, G[g]->s4.max_len);
+   fprintf(bvp_out, "ok %d %u %llu %u %u", (G[g]->s3.flag & BUFR_FLAG_COMPRESSED) ? 1 : 0,
+           G[g]->s4.filled + (G[g]->s4.bitno ? 1 : 0), (unsigned long long)blen, G[g]->s4.max_len, G[g]->s4.max_data_len);
    print_tbe(D[d]);
    return 0;
    }
@@ -1054,7 +1071,7 @@ struct op_entry ops_own[] = {
    { "own.base", own_base }, { "own.counts", own_counts }, { "own.audit", own_audit }, { "own.refs", own_refs },
    { "own.tnew", own_tnew }, { "own.tload", own_tload }, { "own.tmerge", own_tmerge }, { "own.tstate", own_tstate }, { "own.tfree", own_tfree },
    { "own.lnew", own_lnew }, { "own.llocal", own_llocal }, { "own.lfree", own_lfree },
-   { "own.mnew", own_mnew }, { "own.mload", own_mload }, { "own.mcopy", own_mcopy }, { "own.mfree", own_mfree },
+   { "own.mnew", own_mnew }, { "own.madd", own_madd }, { "own.mload", own_mload }, { "own.mcopy", own_mcopy }, { "own.mfree", own_mfree },
    { "own.dnew", own_dnew }, { "own.dsub", own_dsub }, { "own.dfactors", own_dfactors }, { "own.dexpand", own_dexpand },
    { "own.dfill", own_dfill }, { "own.dmerge", own_dmerge }, { "own.dfree", own_dfree }, { "own.dhdr", own_dhdr },
    { "own.enc", own_enc }, { "own.gwrite", own_gwrite }, { "own.gread", own_gread }, { "own.gfree", own_gfree },
